@@ -432,6 +432,8 @@ class Universe:
     def ty_of_value(self, v) -> Ty | None:
         if isinstance(v, (Sym, SymList)):
             return v.ty
+        if isinstance(v, enum.Enum):
+            return self.enum_ty(type(v))
         if isinstance(v, bool):
             return TBool
         if isinstance(v, int):
